@@ -858,6 +858,28 @@ def eval_immut(ctx, rep):
     for k, cls, member, ok, detail in bad[:20]:
         ctx.fail(f"C07/immutability/{k}/{cls}/{member}", f"immutability surface: {k} {cls}.{member} {detail}", rep)
     ctx.count("immut.entries", len(ex.probe()))
+    # dns.immutable.constify (anchored; exported as dns.rdata._constify): every mutable container, at every depth,
+    # becomes its immutable carrier with the same content, and the argument is not aliased
+    import dns.immutable
+    samples = [[1, 2], [[1], [2, [3]]], bytearray(b"ab"), {"k": [1, bytearray(b"x")]}, ([1], 2), (1, (2, [3])), [], {},
+               [bytearray(b"")], {"a": {"b": [1]}}, (bytearray(b"z"),), 5, b"x", "s", None, (1, 2)]
+    def plain(v):
+        if isinstance(v, (list, tuple)):
+            return [plain(x) for x in v]
+        if isinstance(v, (bytes, bytearray)):
+            return bytes(v)
+        if isinstance(v, (dict, dns.immutable.Dict)):
+            return {kk: plain(x) for kk, x in v.items()}
+        return v
+    for sm in samples:
+        want = plain(sm)
+        got = dns.immutable.constify(sm)
+        if not ex.carrier_ok(got) or plain(got) != want:
+            ctx.fail("C07/immutability/constify/deep", f"constify({sm!r}) = {got!r}", rep)
+        _scramble(sm)
+        if plain(got) != want:
+            ctx.fail("C07/immutability/constify/aliases-argument", f"constify result changed with its argument: {got!r}", rep)
+    ctx.count("immut.constify", len(samples))
     # live probes on real values: rebinding and container mutation
     n = dns.name.from_text("www.example.")
     for obj, attr in [(n, "labels")] + [(r, s) for r in all_records()[:200:7] for s in list(r._get_all_slots())[:6]]:
@@ -909,8 +931,296 @@ def eval_case(ctx: Ctx, c: dict):
             eval_rdpair(ctx, i, j, rep, corr=False)
     elif k == "immut":
         eval_immut(ctx, rep)
+    elif k == "valapi":
+        eval_valapi(ctx, c["i"], rep)
+    elif k == "setapi":
+        eval_setapi(ctx, c["a"], c["b"], rep)
+    elif k == "rdsapi":
+        eval_rdsapi(ctx, c, rep)
     else:
         raise ValueError(k)
+
+
+def _mutable(v, deep=2):
+    """the same value in mutable containers: tuple -> list, immutable Dict -> dict at every level (deep >= 1) or at
+    the top level only (deep = 0), bytes -> bytearray (deep = 2 everywhere, deep = 0 at the top level)"""
+    import dns.immutable
+
+    if isinstance(v, tuple):
+        return [(_mutable(x, deep) if deep else x) for x in v]
+    if isinstance(v, bytes):
+        return bytearray(v) if deep != 1 else v
+    if isinstance(v, dns.immutable.Dict):
+        return {kk: (_mutable(x, deep) if deep else x) for kk, x in v.items()}
+    return v
+
+
+def _scramble(v):
+    """mutate, in place, every mutable container reachable from v"""
+    if isinstance(v, list):
+        for x in v:
+            _scramble(x)
+        v.append(v[0] if v else 0)
+        v.reverse()
+    elif isinstance(v, bytearray):
+        v += b"\x01"
+        for i in range(len(v)):
+            v[i] ^= 0x5A
+    elif isinstance(v, dict):
+        for x in v.values():
+            _scramble(x)
+        v.clear()
+
+
+def eval_valapi(ctx, i, rep):
+    """records as values through the remaining routes: direct construction from mutable containers, replace(),
+    copy / deepcopy / pickle, comparison with a non-record"""
+    import copy
+    import inspect
+    import pickle
+
+    import harness.extract_C07 as ex
+
+    if isinstance(i, list):
+        rd = dns.rdata.from_text(i[0], i[1], i[2], origin=dns.name.root, relativize=False)
+    else:
+        R = all_records()
+        rd = R[i % len(R)]
+    cls = type(rd)
+    name = f"{rd.rdclass.name} {rd.rdtype.name} {rd.to_text()[:60]!r}"
+    slots_before = {s2: getattr(rd, s2) for s2 in rd._get_all_slots() if hasattr(rd, s2)}
+    key_before, hash_before = rd_key(rd), hash(rd)
+    params = [p_ for p_ in inspect.signature(cls.__init__).parameters if p_ != "self"]
+    if all(hasattr(rd, p_) for p_ in params):
+        nbuilt = 0
+        for deep in (2, 1, 0):
+            args = [_mutable(getattr(rd, p_), deep) if p_ not in ("rdclass", "rdtype") else getattr(rd, p_) for p_ in params]
+            try:
+                built = cls(*args)
+            except Exception:
+                continue
+            nbuilt += 1
+            ctx.count(f"valapi.ctor.deep{deep}")
+            for s2 in built._get_all_slots():
+                if hasattr(built, s2) and not ex.carrier_ok(getattr(built, s2)):
+                    ctx.fail(f"C07/immutability/ctor-field/{cls.__name__}/{s2}",
+                             f"{cls.__name__}(...) built from mutable containers keeps a mutable {type(getattr(built, s2)).__name__} in .{s2}: {name}", rep)
+            if not (built == rd) or hash(built) != hash(rd):
+                ctx.fail(f"C07/Rdata/ctor/equal/{cls.__name__}", f"record rebuilt from its own fields differs: {name}", rep)
+            kb, hb = rd_key(built), hash(built)
+            for a_ in args:
+                _scramble(a_)
+            try:
+                changed = rd_key(built) != kb or hash(built) != hb or not (built == rd)
+            except Exception:
+                changed = True
+            if changed:
+                ctx.fail(f"C07/immutability/ctor-aliases-argument/{cls.__name__}",
+                         f"mutating a container passed to {cls.__name__}(...) changed the record: {name}", rep)
+        if nbuilt == 0:
+            ctx.count("valapi.ctor-refuses-mutable")
+        # replace(): a new equal record for an unchanged field; the original is never touched
+        for p_ in params:
+            if p_ in ("rdclass", "rdtype"):
+                r_, v_ = None, None
+                try:
+                    rd.replace(**{p_: getattr(rd, p_)})
+                    ctx.fail("C07/Rdata/replace/class-or-type", f"replace({p_}=...) accepted: {name}", rep)
+                except AttributeError:
+                    pass
+                continue
+            try:
+                new = rd.replace(**{p_: getattr(rd, p_)})
+            except Exception as e:
+                ctx.fail(f"C07/Rdata/replace/raises/{cls.__name__}", f"replace({p_}=same) raised {e!r}: {name}", rep)
+                continue
+            if new is rd or not (new == rd) or hash(new) != hash(rd) or type(new) is not cls:
+                ctx.fail(f"C07/Rdata/replace/equal/{cls.__name__}", f"replace({p_}=same) is not a fresh equal record: {name}", rep)
+        try:
+            rd.replace(no_such_field_=1)
+            ctx.fail("C07/Rdata/replace/unknown-field", f"replace(no_such_field_=1) accepted: {name}", rep)
+        except AttributeError:
+            pass
+        new = rd.replace(rdcomment="x")
+        if new is rd or rd.rdcomment == "x" or not (new == rd) or new.rdcomment != "x":
+            ctx.fail("C07/Rdata/replace/rdcomment", f"replace(rdcomment=...) : {name}", rep)
+        # a changed field: the original keeps its value
+        for p_ in params:
+            v_ = getattr(rd, p_)
+            if isinstance(v_, int) and not isinstance(v_, bool) and p_ not in ("rdclass", "rdtype"):
+                for nv in (v_ + 1, v_ - 1 if v_ > 0 else v_ + 2):
+                    try:
+                        new = rd.replace(**{p_: nv})
+                    except Exception:
+                        continue
+                    if getattr(rd, p_) != v_ or (getattr(new, p_) == nv and new == rd and new.to_digestable(dns.name.root) == key_before[3] and False):
+                        ctx.fail("C07/Rdata/replace/mutates-original", f"replace({p_}={nv}) changed the original: {name}", rep)
+                    break
+                break
+    bad = []
+    for what, fn in (("copy.copy", copy.copy), ("copy.deepcopy", copy.deepcopy), ("pickle", lambda x: pickle.loads(pickle.dumps(x)))):
+        try:
+            cp = fn(rd)
+            if not (cp == rd) or cp != rd or hash(cp) != hash(rd) or rd_key(cp) != key_before or type(cp) is not cls:
+                bad.append(f"{what}: not an equal record")
+            elif not ex.carrier_ok(cp):
+                bad.append(f"{what}: mutable field")
+        except Exception as e:
+            bad.append(f"{what}: {type(e).__name__}: {e}")
+    if bad:
+        # a record is a value: its copies and pickles are equal records
+        ctx.fail(f"C07/Rdata/value/copy-protocol/{cls.__name__}", f"{'; '.join(bad)} -- {name}", rep)
+    for other in (None, 0, "x", rd.to_text(), key_before[3], (rd,)):
+        if rd == other or not (rd != other):
+            ctx.fail("C07/Rdata/eq/non-record", f"== {other!r}: {name}", rep)
+    if {s2: getattr(rd, s2) for s2 in slots_before} != slots_before or any(getattr(rd, s2) is not slots_before[s2] for s2 in slots_before) \
+            or rd_key(rd) != key_before or hash(rd) != hash_before:
+        ctx.fail("C07/immutability/record-changed", f"the record changed while being copied / replaced / compared: {name}", rep)
+    ctx.count("valapi")
+
+
+def eval_setapi(ctx, a, b, rep):
+    """dns.set.Set: argument types, membership, copy protocol"""
+    import copy
+
+    A, B = dns.set.Set(a), dns.set.Set(x for x in b)
+    ea = list(dict.fromkeys(a))
+    if list(A) != ea or list(B) != list(dict.fromkeys(b)) or len(A) != len(ea):
+        ctx.fail("C07/Set/init/iterable", f"Set({a}) = {list(A)}", rep)
+    for x in range(9):
+        if (x in A) != (x in ea):
+            ctx.fail("C07/Set/contains", f"{x} in Set({a}) is {x in A}", rep)
+    for meth in ("union_update", "intersection_update", "difference_update", "symmetric_difference_update", "union",
+                 "intersection", "difference", "symmetric_difference", "issubset", "issuperset", "isdisjoint"):
+        for bad in (list(b), tuple(b), set(b), dict.fromkeys(b), None):
+            S = dns.set.Set(a)
+            try:
+                getattr(S, meth)(bad)
+                ctx.fail(f"C07/Set/{meth}/non-set-operand", f"{meth}({type(bad).__name__}) accepted", rep)
+            except ValueError:
+                pass
+            except (TypeError, AttributeError) as e:
+                ctx.fail(f"C07/Set/{meth}/non-set-operand", f"{meth}({type(bad).__name__}) raised {type(e).__name__}, documented: ValueError", rep)
+            if list(S) != ea:
+                ctx.fail(f"C07/Set/{meth}/non-set-operand", f"{meth}({type(bad).__name__}) changed the set to {list(S)}", rep)
+    for what, cp in (("copy.copy", copy.copy(A)), ("copy()", A.copy()), ("_clone", A._clone())):
+        if cp is A or cp.items is A.items or list(cp) != ea or type(cp) is not dns.set.Set:
+            ctx.fail("C07/Set/copy/fresh", f"{what} is not a fresh equal set", rep)
+        cp.add(99)
+        if 99 in A:
+            ctx.fail("C07/Set/copy/fresh", f"{what} shares its dict with the original", rep)
+    for src, nm in ((B, "Set"), (iter(list(b)), "iterator"), (tuple(b), "tuple"), (dict.fromkeys(b), "dict")):
+        S = dns.set.Set(a)
+        S.update(src)
+        if list(S) != ref_binop("un", ea, list(dict.fromkeys(b))):
+            ctx.fail("C07/Set/update/iterable", f"update({nm}) gave {list(S)}", rep)
+    S = dns.set.Set(a)
+    S.update(S)
+    if list(S) != ea:
+        ctx.fail("C07/Set/update/self", f"update(self) gave {list(S)}", rep)
+    if (A == B) != (set(a) == set(b)) or (A != B) == (A == B):
+        ctx.fail("C07/Set/eq/set-theory", f"{a} == {b} gave {A == B}", rep)
+    ctx.count("setapi")
+
+
+def eval_rdsapi(ctx, c, rep):
+    """Rdataset / RRset construction routes and the RRset-only surface (name, deleting, match, full_match, to_rdataset)"""
+    P = pools()
+    lab, idxs, ttl = c["label"], c["idx"], c["ttl"]
+    rds_ = [P[lab][i] for i in idxs]
+    cls_, typ_ = POOL_META[lab]
+    singleton = typ_ in {int(x) for x in dns.rdatatype._singletons}
+    same_cov = typ_ != 46 or len({int(r.covers()) for r in rds_}) <= 1
+    exp_keys = []
+    for r in rds_:
+        if singleton:
+            exp_keys = [rd_key(r)]
+        elif rd_key(r) not in exp_keys:
+            exp_keys.append(rd_key(r))
+    nm = dns.name.from_text("Owner.Example.")
+    routes = {
+        "rdataset.from_rdata": lambda: dns.rdataset.from_rdata(ttl, *rds_),
+        "rdataset.from_rdata_list": lambda: dns.rdataset.from_rdata_list(ttl, rds_),
+        "rrset.from_rdata": lambda: dns.rrset.from_rdata(nm, ttl, *rds_),
+        "rrset.from_rdata_list": lambda: dns.rrset.from_rdata_list(nm, ttl, rds_),
+        "rdataset.from_text_list": lambda: dns.rdataset.from_text_list(cls_, typ_, ttl, [r.to_text() for r in rds_],
+                                                                        origin=dns.name.root, relativize=False),
+        "add-with-ttl": lambda: _add_all(dns.rdataset.Rdataset(cls_, typ_), rds_, ttl),
+        "add-with-str-ttl": lambda: _add_all(dns.rdataset.Rdataset(cls_, typ_), rds_, str(ttl)),
+        "update_ttl-str": lambda: _add_all(_ttl(dns.rdataset.Rdataset(cls_, typ_), str(ttl)), rds_, None),
+    }
+    for rn, fn in routes.items():
+        if rn == "rdataset.from_text_list" and any(rd_rel(r) for r in rds_):
+            continue
+        try:
+            got = fn()
+        except dns.rdataset.DifferingCovers:
+            if same_cov:
+                ctx.fail(f"C07/Rdataset/{rn}/raises", "DifferingCovers for signatures covering one type", rep)
+            continue
+        except Exception as e:
+            ctx.fail(f"C07/Rdataset/{rn}/raises", f"{e!r}", rep)
+            continue
+        if not same_cov:
+            ctx.fail(f"C07/Rdataset/{rn}/refuses-other-covers", f"signatures covering different types accepted: {rds_state(got)}", rep)
+            continue
+        if [rd_key(x) for x in got] != exp_keys or got.ttl != ttl or not isinstance(got.ttl, int) \
+                or (int(got.rdclass), int(got.rdtype)) != (cls_, typ_) \
+                or (typ_ == 46 and int(got.covers) != int(rds_[0].covers())) or (typ_ != 46 and int(got.covers) != 0):
+            ctx.fail(f"C07/Rdataset/{rn}/spec", f"{rn}(ttl={ttl!r}, {len(rds_)} records) gave {rds_state(got)}", rep)
+    d0 = dns.rdataset.Rdataset(cls_, typ_)
+    if int(d0.covers) != 0 or d0.ttl != 0 or len(d0) != 0:
+        ctx.fail("C07/Rdataset/init/defaults", f"Rdataset(class, type) = {rds_state(d0)}", rep)
+    if not same_cov:
+        ctx.count("rdsapi.mixed-covers")
+        return
+    # RRset-only surface
+    deleting = c["deleting"]
+    cov = int(rds_[0].covers()) if typ_ == 46 else 0
+    rr = dns.rrset.RRset(nm, cls_, typ_, cov, deleting)
+    for r in rds_:
+        rr.add(r, ttl)
+    other_name = dns.name.from_text("other.example.")
+    twin = dns.rrset.RRset(dns.name.from_text("OWNER.example."), cls_, typ_, cov, deleting)
+    far = dns.rrset.RRset(other_name, cls_, typ_, cov, deleting)
+    for r in rds_:
+        twin.add(r, ttl)
+        far.add(r, ttl)
+    if not (rr == twin) or rr != twin or rr == far or not (rr != far):
+        ctx.fail("C07/RRset/eq/owner-name", "RRset equality must compare the owner name (case-insensitively) and the records", rep)
+    plain = rr.to_rdataset()
+    if type(plain) is not dns.rdataset.Rdataset or [rd_key(x) for x in plain] != exp_keys or plain.ttl != rr.ttl \
+            or int(plain.covers) != cov or not (plain == rr) or not (rr == plain):
+        ctx.fail("C07/RRset/to_rdataset/spec", f"to_rdataset() gave {rds_state(plain)}", rep)
+    for dl in (None, 254, 255):
+        for n2 in (nm, twin.name, other_name):
+            for c2, t2, v2 in ((cls_, typ_, cov), (cls_, typ_, cov + 1), (cls_ + 1, typ_, cov), (cls_, typ_ + 1, cov)):
+                exp = (n2 != other_name) and (c2, t2, v2) == (cls_, typ_, cov) and dl == deleting
+                g1 = rr.full_match(n2, c2, t2, v2, dl)
+                g2 = rr.match(n2, c2, t2, v2, dl)
+                if bool(g1) != exp or bool(g2) != exp:
+                    ctx.fail("C07/RRset/full_match/spec", f"full_match(name, {c2}, {t2}, {v2}, deleting={dl}) on an RRset with deleting={deleting}: {g1}/{g2}", rep)
+    if bool(rr.match(cls_, typ_, cov)) is not True or bool(rr.match(cls_, typ_, cov + 1)) or bool(rr.full_match(nm, cls_, typ_, cov)) != (deleting is None):
+        ctx.fail("C07/RRset/match/spec", "match(class, type, covers) / full_match default deleting", rep)
+    import copy
+    other = dns.rrset.RRset(other_name, cls_, typ_, cov)
+    for what, cp in (("copy()", rr.copy()), ("copy.copy", copy.copy(rr)), ("union", rr.union(other)), ("intersection", rr.intersection(rr)),
+                     ("difference", rr.difference(other)), ("symmetric_difference", rr.symmetric_difference(other)), ("|", rr | other)):
+        if type(cp) is not dns.rrset.RRset or cp.name != nm or cp.deleting != deleting or cp is rr or cp.items is rr.items \
+                or [rd_key(x) for x in cp] != exp_keys or int(cp.covers) != cov:
+            ctx.fail("C07/RRset/clone/keeps-name-and-deleting", f"{what}: {type(cp).__name__} name={getattr(cp, 'name', None)} deleting={getattr(cp, 'deleting', None)} {rds_state(cp)}", rep)
+    ctx.count("rdsapi")
+
+
+def _add_all(r, rds_, ttl):
+    for x in rds_:
+        r.add(x, ttl)
+    return r
+
+
+def _ttl(r, t):
+    r.update_ttl(t)
+    return r
 
 
 def generate(ctx: Ctx, scale, rng):
@@ -928,6 +1238,21 @@ def generate(ctx: Ctx, scale, rng):
         ctx.case(("rds", json.dumps(c["script"]), c["flavor"]), sample=c)
         eval_case(ctx, c)
     R = all_records()
+    for i in range(len(R)) if scale >= 2 else rng.shuffle(list(range(len(R))))[: len(R) // 2]:
+        c = {"kind": "valapi", "i": i}
+        ctx.case(("valapi", i), sample=c)
+        eval_case(ctx, c)
+    for _ in range(n(60)):
+        c = {"kind": "setapi", "a": [rng.below(8) for _ in range(rng.below(7))], "b": [rng.below(8) for _ in range(rng.below(6))]}
+        ctx.case(("setapi", str(c)), sample=c)
+        eval_case(ctx, c)
+    P = pools()
+    for _ in range(n(300)):
+        lab = rng.choice(["A", "MX", "TXT", "CNAME", "SOA", "RRSIG", "RRSIG", "CHTXT"])
+        c = {"kind": "rdsapi", "label": lab, "idx": [rng.below(len(P[lab])) for _ in range(rng.range(1, 5))],
+             "ttl": rng.choice(TTLS), "deleting": rng.choice([None, None, 254, 255])}
+        ctx.case(("rdsapi", str(c)), sample=c)
+        eval_case(ctx, c)
     for _ in range(n(6000)):
         i = rng.below(len(R))
         m = rng.below(4)
